@@ -4,6 +4,16 @@ import json, os
 ROOT = os.path.dirname(os.path.dirname(os.path.abspath(__file__)))
 
 CHECKS = {
+ "C11": dict(
+   technique="property-based print/parse round-trip testing of untyped values with adversarial text and label pools (proptest)",
+   text="Generated canonical values of generated types, with text, labels and method names from pools biased to control characters, NUL, quotes, backslash, keywords and exotic Unicode, big numbers, vectors above the abbreviation threshold and deep nesting, are printed by Display and Debug (IDLArgs and IDLValue), parsed back and re-annotated; the abstract value must be unchanged and printing deterministic. Exploration.",
+   note="Finite floats only; comparison is on abstract values (labels by id, floats by bits).",
+   ref="DESIGN.md §5 C11"),
+ "C13": dict(
+   technique="grammar-aware fuzzing of the seven parser entry points (token soups, action-targeted templates, mutated valid sentences) with crash attribution and two build profiles (proptest)",
+   text="Inputs from a 230-lexeme alphabet, templates aimed at the grammar's semantic actions and mutated generated programs/types/values are fed to every parser; each must return, its follow-up (type check, printing, encoding) must return, errors must format and carry in-range spans, with no panic or abort in a debug-assertion and a release-like build. Exploration.",
+   note="Nesting above 128 is outside the property and skipped.",
+   ref="DESIGN.md §5 C13"),
  "C04": dict(
    technique="property-based implication testing: checker-accepted pairs must decode (untyped and native), plus a metamorphic chain relation (proptest)",
    text="For generated (environment, t, t') pairs that the implementation's subtype check accepts (upgrade-step chains and independent types), generated inhabitants of t encoded by two encoders must decode at t' to a value of t'; for chains t <: t' <: t'' the direct and the two-step result must be related by opt v ~ null. Natively, every ordered pair of ~230 corpus Rust types that the checker relates is exercised with generated values. Exploration over generated pairs and values.",
